@@ -15,6 +15,10 @@ type Tape struct {
 	pos  int
 	// Used counts cells consumed, including those past the end.
 	Used int
+	// Tail, when non-zero, seeds a splitmix64 stream that answers once the
+	// explicit cells are exhausted (long runs need more decisions than a
+	// shrinkable tape can hold). Tail = 0 keeps the "exhausted = 0" rule.
+	Tail uint64
 }
 
 // NewTape wraps data.
@@ -27,7 +31,15 @@ func (t *Tape) Choose(n int) int {
 	}
 	t.Used++
 	if t.pos >= len(t.Data) {
-		return 0
+		if t.Tail == 0 {
+			return 0
+		}
+		t.Tail += 0x9e3779b97f4a7c15
+		z := t.Tail
+		z = (z ^ (z >> 30)) * 0xbf58476d1ce4e5b9
+		z = (z ^ (z >> 27)) * 0x94d049bb133111eb
+		z ^= z >> 31
+		return int(z % uint64(n))
 	}
 	v := t.Data[t.pos]
 	t.pos++
